@@ -251,3 +251,36 @@ PROPS['C10'] = dict(
     level_text="Lean 4 theorems: C10_format_total (the formatter model – kind dispatch, elision at the limit, empty marker, inline singleton one level deeper, multi-line arm, associations – returns for EVERY value with fuel 3*size+1: it terminates however deep or wide), C10_elides_at_limit (at the limit a collection is written [...](Ctx) without visiting its items, hence self-containing values are formatted in finitely many steps), C10_format_pure. The round-trip equation C10_roundtrip_statement is stated in full over the three executable models (formatter, scanner, parser) but NOT proved: it is held by the correspondence run, in which the formatter model reproduces the real text, the scanner model the real tokens and the parser model the real parsed value on every generated value, and the real chain gives back an equal value and the same text.",
     level_note="PARTIAL: the round trip rests on correspondence + the executable spec, not on a Lean proof. strconv (FormatFloat/Quote/QuoteRune/ParseFloat/Unquote) is external: leaf texts are shipped with each case and checked by scanning them. Texts of unordered Maps are compared as multisets of lines. A fatal stack overflow cannot be modelled; the cyclic cases run in a child process.",
 )
+
+def q_key(l):
+    if l.get('k') != 'qtrace':
+        return (l.get('k'), l.get('via'), min(l.get('n', 0), 40), l.get('out'))
+    p = l.get('prog', {})
+    evs = l.get('evs', [])
+    shape = tuple((e[0], e[1]) for e in evs if e[0] != 'call')[:40]
+    return (p.get('cap'), len(p.get('producers', [])), sum(len(x) for x in p.get('producers', [])), p.get('consumers'), p.get('observers'),
+            p.get('removeAll'), p.get('closeEarly'), l.get('status'), hash(shape))
+
+Q_RULE = ("cases = one run of one small client program on the real queue under the controlled scheduler (hooks at every Lock, "
+          "send, receive and close; exactly one goroutine runs between grants; channel operations are granted only when they can "
+          "proceed), recorded as the sequence of atomic steps with every call's result: programs = 1-3 producers x 1-3 values, "
+          "1-3 consumers reading until ok=false, capacity 1-3, a closer that waits for the producers, optional size/array/empty "
+          "observers, optional RemoveAll caller, and a deliberately early closer; schedules = depth-first enumeration by replay "
+          "(budget per program: 60 runs quick / 4000 thorough; 'exhausted' counts the programs fully enumerated) plus PRNG "
+          "schedules; distinct = distinct (program shape, final status, sequence of (step kind, thread))")
+
+PROPS['C04'] = dict(
+    id='C04', modules=['CollectionModel.Props.C04'], key=q_key, nontrivial=lambda l: l.get('k') == 'qtrace' and len(l.get('evs', [])) > 4,
+    rule=Q_RULE, timeout=dict(quick=900, thorough=6000),
+    exhaustive_subspaces="all schedules of the programs whose DFS finished within the budget (number reported in the qmeta line of the run)",
+    level_text="Lean 4 theorems over a transition system at the granularity of the synchronisation operations with an ARBITRARY thread list: C04_inv_reachable (|values| = tokens + consumers holding a token + producers that appended but not sent; tokens <= capacity; appended = removed ++ values – in every reachable state of every interleaving), C04_pop_never_fails, C04_fifo (one FIFO order: each RemoveHead returns the oldest value not yet removed; nothing invented, lost, duplicated, reordered), C04_closed_drained (ok=false only when closed and no token left), C04_backpressure, C04_observers (GetSize <= capacity; AsArray = added-not-removed in FIFO order), C04_linearizable (each step acts on the list as the atomic FIFO spec at a linearisation point inside the call). Hypotheses = client obligations: no AddValue overlapping CloseQueue, RemoveAll only when no AddValue/RemoveHead is in flight; outside them the code violates the property (C04_counterexample_removeall, C04_counterexample_close_during_add: recorded findings). Tie: every recorded real trace is replayed step by step on the model (trace inclusion).",
+    level_note="PARTIAL: data-race freedom is a Go-memory-model property outside the model (lock-set reading only; race-detector stress is supporting evidence). The Go runtime's channel is assumed textbook. 'Withheld' scheduling cannot exhibit goroutines parked on a replaced channel (D05a).",
+)
+
+PROPS['C05'] = dict(
+    id='C05', modules=['CollectionModel.Props.C05'], key=q_key, nontrivial=lambda l: True, rule=Q_RULE + "; plus the three constructor entry points (MakeFromArray, MakeFromSequence, a parsed Queue literal) for every N in 0..4*capacity+1 under a watchdog",
+    timeout=dict(quick=900, thorough=6000),
+    exhaustive_subspaces="constructors: every N in 0..65 through all three entry points; schedules as C04",
+    level_text="Lean 4 theorems (any number of threads, every reachable state): C05_recv_enabled_iff / C05_send_enabled_iff (a blocked call can proceed exactly when the queue's state permits), C05_no_mutual_block (a consumer blocked on empty and a producer blocked on full never coexist), C05_recv_after_send / C05_recv_after_close / C05_send_after_recv (the step that changes the state enables the blocked call: no lost wake-up), C05_ctor_returns (constructing from N values never blocks once capacity >= N, for every N). Negative: C05_counterexample_removeall_breaks_accounting. Termination of every well-formed producer/consumer/closer program is established by exploration of all schedules of the small programs (DFS by replay on the real code), NOT by a Lean proof for all thread counts.",
+    level_note="PARTIAL: real wake-ups belong to the Go runtime (textbook channel assumed); program termination by finite exploration only; stranding on a replaced channel after RemoveAll is a recorded finding that withheld scheduling cannot exhibit directly (its visible symptom here: a closed queue re-opened by RemoveAll blocks consumers for ever).",
+)
